@@ -220,6 +220,150 @@ func c08Batch(r *vg.Rand, pool []Address, cur []*Validator, hostile bool) []*Val
 	return batch
 }
 
+// ---- wide batches: 8..12 validators join at once and take the total close to
+// MaxTotalVotingPower.  All of them enter at -1.125 * total, so the sum of the priorities to be
+// centred is far below MinInt64 (the code sums in big.Int), and the spread is near the window.
+
+// distinct one-byte addresses (cheap Coq terms), a few two-byte ones sharing a prefix
+func c08WidePool(r *vg.Rand, n int) []Address {
+	var pool []Address
+	for _, i := range r.Perm(200)[:n] {
+		a := Address{byte(1 + i)}
+		if r.Chance(15) {
+			a = Address{byte(1 + i), byte(r.Intn(3))}
+		}
+		pool = append(pool, a)
+	}
+	return pool
+}
+
+// a small set reached by the code: NewValidatorSet of 1..4 validators, then a few increments
+func c08ReachSmall(r *vg.Rand, pool []Address) *ValidatorSet {
+	n := 1 + r.Intn(4)
+	var valz []*Validator
+	style := r.Intn(4)
+	for _, i := range r.Perm(len(pool))[:n] {
+		var p int64
+		switch style {
+		case 0:
+			p = 1 + r.Int63n(12)
+		case 1:
+			p = 1 + r.Int63n(1000000)
+		case 2:
+			p = MaxTotalVotingPower/int64(16+r.Intn(16)) - int64(r.Intn(3))
+		default:
+			p = c08Power(r)
+			if p > MaxTotalVotingPower/16 {
+				p = MaxTotalVotingPower / 16
+			}
+		}
+		valz = append(valz, &Validator{Address: pool[i], VotingPower: p})
+	}
+	vs, _ := c08New(valz)
+	for s := r.Intn(4); s > 0; s-- {
+		c08Ipp(vs, int32(1+r.Intn(4)))
+	}
+	return vs
+}
+
+// split `target` over m newcomers (all powers >= 1 when target >= m)
+func c08Split(r *vg.Rand, target int64, m int) []int64 {
+	out := make([]int64, m)
+	switch r.Intn(3) {
+	case 0: // equal shares, the remainder on one
+		for i := range out {
+			out[i] = target / int64(m)
+		}
+		out[r.Intn(m)] += target % int64(m)
+	case 1: // weights 1..4
+		w := make([]int64, m)
+		var sw int64
+		for i := range w {
+			w[i] = 1 + int64(r.Intn(4))
+			sw += w[i]
+		}
+		var used int64
+		for i := range out {
+			out[i] = target / sw * w[i]
+			used += out[i]
+		}
+		out[r.Intn(m)] += target - used
+	default: // one large, the others equal and small or medium
+		small := []int64{1, 1000, target / int64(4*m)}[r.Intn(3)]
+		if small < 1 {
+			small = 1
+		}
+		for i := range out {
+			out[i] = small
+		}
+		out[r.Intn(m)] = target - small*int64(m-1)
+	}
+	return out
+}
+
+func c08WideBatch(r *vg.Rand, pool []Address, cur []*Validator) ([]*Validator, string) {
+	var total int64
+	have := map[string]bool{}
+	for _, v := range cur {
+		total += v.VotingPower
+		have[string(v.Address)] = true
+	}
+	var free []Address
+	for _, a := range pool {
+		if !have[string(a)] {
+			free = append(free, a)
+		}
+	}
+	m := 8 + r.Intn(5)
+	if m > len(free) {
+		m = len(free)
+	}
+	var batch []*Validator
+	kind := ""
+	// members that change or leave in the same batch
+	if len(cur) > 1 && r.Chance(35) {
+		v := cur[r.Intn(len(cur))]
+		if r.Bool() {
+			batch = append(batch, &Validator{Address: v.Address, VotingPower: 0})
+			total -= v.VotingPower
+			kind = "+removal"
+		} else {
+			np := 1 + r.Int63n(v.VotingPower+5)
+			batch = append(batch, &Validator{Address: v.Address, VotingPower: np})
+			total += np - v.VotingPower
+			kind = "+change"
+		}
+	}
+	room := MaxTotalVotingPower - total
+	var target int64
+	switch r.Intn(8) {
+	case 0, 1:
+		target, kind = room, "to-the-limit"+kind
+	case 2:
+		target, kind = room-int64(1+r.Intn(3)), "just-below-the-limit"+kind
+	case 3:
+		target, kind = room+int64(1+r.Intn(2)), "over-the-limit"+kind
+	case 4:
+		target, kind = room/2+r.Int63n(room/2), "upper-half"+kind
+	case 5:
+		target, kind = int64(m)*(1+r.Int63n(1000)), "small"+kind
+	default:
+		target, kind = room-r.Int63n(room/8+1), "near-the-limit"+kind
+	}
+	if target < int64(m) {
+		target = int64(m)
+	}
+	for i, p := range c08Split(r, target, m) {
+		batch = append(batch, &Validator{Address: free[i], VotingPower: p})
+	}
+	// batch order: shuffled
+	out := make([]*Validator, len(batch))
+	for i, j := range r.Perm(len(batch)) {
+		out[i] = batch[j]
+	}
+	return out, kind
+}
+
 func c08Perms(r *vg.Rand, n int) [][]int {
 	if n <= 1 {
 		return nil
@@ -278,7 +422,17 @@ func TestVerifC08Update(t *testing.T) {
 		snap := c08Copy(vs.Validators)
 		kind := "valid"
 		var batch []*Validator
+		wide := k%8 == 5
+		if wide {
+			pool = c08WidePool(r, 14+r.Intn(6))
+			vs = c08ReachSmall(r, pool)
+			snap = c08Copy(vs.Validators)
+			var wk string
+			batch, wk = c08WideBatch(r, pool, snap)
+			kind = "wide-join/" + wk
+		}
 		switch d := r.Intn(20); {
+		case wide:
 		case d == 0:
 			kind = "remove-all"
 			for _, v := range snap {
@@ -408,7 +562,11 @@ func TestVerifC08New(t *testing.T) {
 		pool := c08Pool(r, 6)
 		var valz []*Validator
 		kind := "valid"
-		if r.Chance(20) {
+		if k%5 == 3 {
+			var wk string
+			valz, wk = c08WideBatch(r, c08WidePool(r, 14), nil)
+			kind = "wide/" + wk
+		} else if r.Chance(20) {
 			kind = "hostile"
 			valz = c08Batch(r, pool, nil, true)
 		} else {
@@ -490,10 +648,35 @@ func TestVerifC08Rounds(t *testing.T) {
 				rounds = 40
 				kind = "fresh-huge"
 			}
+			if k%9 == 6 { // 8..12 validators sharing (almost) MaxTotalVotingPower
+				valz, _ = c08WideBatch(r, c08WidePool(r, 14), nil)
+				start = c08Copy(valz)
+				vs, _ = c08New(valz)
+				if vs == nil { // over the limit (by 1 or 2): NewValidatorSet panics; shrink the largest
+					big := valz[0]
+					for _, v := range valz {
+						if v.VotingPower > big.VotingPower {
+							big = v
+						}
+					}
+					big.VotingPower -= 2
+					start = c08Copy(valz)
+					vs, _ = c08New(valz)
+				}
+				rounds = 30
+				kind = "fresh-wide"
+			}
 		} else {
 			kind = "reached"
 			vs = c08Reach(r, pool)
-			if r.Chance(50) && len(vs.Validators) >= 2 {
+			if k%9 == 7 || k%9 == 2 {
+				// a small set that 8..12 validators have just joined, total near the limit
+				kind = "reached/wide-join"
+				wp := c08WidePool(r, 16)
+				vs = c08ReachSmall(r, wp)
+				b, _ := c08WideBatch(r, wp, vs.Validators)
+				c08Update(vs, b)
+			} else if r.Chance(50) && len(vs.Validators) >= 2 {
 				// directed (F1 class): the largest validator leaves, a small one joins; the
 				// following rounds rescale again and again
 				kind = "reached/big-leaves"
